@@ -20,7 +20,7 @@ type Atom struct {
 	Fn    string  `json:"fn"` // count, sum, avg, min, max
 	Op    string  `json:"op"`
 	Lit   float64 `json:"lit"`
-	Spell int     `json:"spell"` // spelling variant of the call
+	Spell int     `json:"spell"`         // spelling variant of the call
 	Col   string  `json:"col,omitempty"` // input column: "" = v; "V" and "u" are other columns (V differs from v only in case); count over a column counts its non-NULL values
 }
 
@@ -33,10 +33,10 @@ func (a Atom) col() string {
 
 type Case struct {
 	Atoms    []Atom    `json:"atoms"`
-	Joins    []string  `json:"joins"`    // between atoms: "AND"/"OR"
-	Selected []string  `json:"selected"` // aggregates in the SELECT list (besides ids)
-	Keys     []string  `json:"keys"`     // group columns
-	Rows     []gen.Row `json:"rows"`     // id, v, key columns
+	Joins    []string  `json:"joins"`            // between atoms: "AND"/"OR"
+	Selected []string  `json:"selected"`         // aggregates in the SELECT list (besides ids)
+	Keys     []string  `json:"keys"`             // group columns
+	Rows     []gen.Row `json:"rows"`             // id, v, key columns
 	NoIDs    bool      `json:"no_ids,omitempty"` // the query selects no collect(id): rows whose aggregated inputs are all NULL feed no selected aggregate
 }
 
@@ -538,12 +538,12 @@ func features(c Case) []string {
 }
 
 var spec = pbt.Spec[Case]{
-	ID:   "C17",
-	Rule: "generated: GLOBAL WINDOW TRIGGER WHEN predicates of 1-3 comparisons of count(*)/count/sum/avg/min/max over v or, one time in four, over another column (V, which differs from v only in case, or u) with literals joined by AND/OR (varied spelling), a random subset of those aggregates in the SELECT list (so predicates reference selected and unselected aggregates), 0-2 group columns over separator-bearing strings/ints/NULL, 1-40 rows with NULL/missing inputs. oracle: per-group running model - after each row evaluate the predicate on the rows since the group last fired (NULL aggregate => comparison not true), fire exactly there with aggregates over precisely those rows and the group columns, reset; results in firing order. non-trivial = >=2 groups, a predicate over an unselected aggregate or with OR, and a group firing twice; distinct by case hash",
+	ID:          "C17",
+	Rule:        "generated: GLOBAL WINDOW TRIGGER WHEN predicates of 1-3 comparisons of count(*)/count/sum/avg/min/max over v or, one time in four, over another column (V, which differs from v only in case, or u) with literals joined by AND/OR (varied spelling), a random subset of those aggregates in the SELECT list (so predicates reference selected and unselected aggregates), 0-2 group columns over separator-bearing strings/ints/NULL, 1-40 rows with NULL/missing inputs. oracle: per-group running model - after each row evaluate the predicate on the rows since the group last fired (NULL aggregate => comparison not true), fire exactly there with aggregates over precisely those rows and the group columns, reset; results in firing order. non-trivial = >=2 groups, a predicate over an unselected aggregate or with OR, and a group firing twice; distinct by case hash",
 	Assumptions: []string{"input never dropped (block strategy)", "the window goroutine is sequential, so result order = firing order", "AND binds tighter than OR"},
-	Gen:      genCase,
-	Run:      runCase,
-	Features: features,
+	Gen:         genCase,
+	Run:         runCase,
+	Features:    features,
 }
 
 func TestProp(t *testing.T)    { pbt.RunProp(t, spec) }
